@@ -377,6 +377,9 @@ class Micro(object):
                                    '(e.g. only the count word) the word lies outside the field, and outside the buffer when the field is the last one' % (f.q, cur.get('n'), bad.get('l') if bad else '', ends[0].get('n')))
         return n_ob
 
+    def run_minsize(self, res, rule='MICRO-WALK'):
+        return minsize_rule(res, self.funcs, rule)
+
     def run_array(self, res, rule='MICRO-ARRAY'):
         res.rule(rule, 'every UMGet*FromArray getter forms the item pointer only under idx < UMGetNumItemsInArray(handle)', floor=8)
         n = 0
@@ -397,11 +400,32 @@ class Micro(object):
         return n
 
 
+def minsize_rule(res, funcs, rule='MICRO-WALK'):
+    """an empty Message flattens to exactly MESSAGE_HEADER_SIZE bytes: size checks against it must be strict"""
+    n = 0
+    for f in funcs:
+        for c in f.walk():
+            if c['k'] == 'BinaryOperator' and c.get('op') in ('<', '<=', '>', '>=') and any(x['k'] == 'DeclRefExpr' and x.get('n') == 'MESSAGE_HEADER_SIZE' for x in c.walk()):
+                l_is_const = any(x['k'] == 'DeclRefExpr' and x.get('n') == 'MESSAGE_HEADER_SIZE' for x in c['ch'][0].walk())
+                op = c['op'] if not l_is_const else {'<': '>', '<=': '>=', '>': '<', '>=': '<='}[c['op']]
+                if any(x['k'] == 'MemberExpr' and x.get('n') in ('_numValidBytes', '_bufferSize') for x in c.walk()) and op in ('>', '>='):
+                    # `valid bytes > header size` / `>=`: "has at least one field" / "is a Message at all" tests, both legitimate
+                    continue
+                n += 1
+                res.ob(rule, f.where(c), '%s: `%s` accepts a size equal to MESSAGE_HEADER_SIZE (an empty Message)' % (f.q, c.text(50)), op in ('<', '>='), function=f.q,
+                       key='%s|%s|min-size:%s' % (rule, f.q, c.get('l')),
+                       message='%s rejects a sub-Message of exactly MESSAGE_HEADER_SIZE bytes (`%s`): that is what an empty Message flattens to in every implementation, so a field containing an empty '
+                               'Message cannot be read although the other codecs produce and accept it' % (f.q, c.text(50)))
+    return n
+
+
+
 def run(res, fx):
     m = Micro(fx)
     m.run_validator(res)
     ns = m.run_fieldptr(res)
     nw = m.run_walk(res)
+    nw += m.run_minsize(res)
     na = m.run_array(res)
     res.extra['micro'] = {'functions': len(m.funcs), 'accessor_sites': ns, 'walker_obligations': nw, 'array_getters': na,
                           'helper_parameters': sorted('%s#%d:%s=%s' % (k[0], k[1], k[2], v) for k, v in m.param_valid.items() if k[0] != 'inv')}
